@@ -188,3 +188,8 @@ impl<'a> ast::Args<'a> {
 pub fn vp_extend<T>(dst: &mut Vec<T>, src: VpIter<T>)
     ensures final(dst)@ == old(dst)@ + src.rest(),
 { unimplemented!() }
+impl<'a> ast::Math<'a> {
+    #[verifier::external_body]
+    pub fn exprs(self) -> (r: VpIter<ast::Expr<'a>>) requires self.wf(), tree_wf(self.0)
+        ensures forall|k: int| 0 <= k < r.rest().len() ==> (#[trigger] r.rest()[k]).wf() && is_child_of(r.rest()[k].node(), self.0) { unimplemented!() }
+}
